@@ -10,6 +10,11 @@ VALUE_ALPHABET = string.ascii_letters + string.digits + "-_~.@:+%= é"
 # characters that mean something to `re` or to `str.format`, and a few more outside ASCII: all of them are
 # "characters that are not delimiters of the pattern", so a value made of them must survive the round trip
 SPECIAL_ALPHABET = "*$()[]\\^|?{}!,'\"#&;<>\t\r中ß"
+# variable names PATH_ARG_RE (`[a-zA-Z0-9_\-]+`) accepts and that are Python identifiers: snake_case, camelCase, Capitalised,
+# all-caps, with digits, with a leading underscore.  Names that are NOT identifiers (`key-ring`, `2fa`) and keywords (`class`)
+# make the emitted client a SyntaxError: listed findings with dedicated inputs (check_name_shapes), never drawn here.
+VAR_NAMES = ["shelf", "book", "a", "b", "c", "d", "e", "project", "location", "item_id",
+             "keyRing", "cryptoKeyVersion", "Project", "KMSKey", "ID", "x1", "v2beta1", "item_2", "_x", "dataStoreId", "Location"]
 COMMON = ["billing_account", "folder", "organization", "project", "location"]
 
 
@@ -30,7 +35,7 @@ def gen_pattern(r: apigen.Rng, allow_dot=True):
         # one path segment: 1..6 variables joined by non-slash separators (the quantifier allows up to six in one segment)
         k = min(nvars - i, 1 if r.maybe(0.6) else r.randint(2, 6))
         for j in range(k):
-            name = f"v{i}" if r.maybe(0.3) else r.pick(["shelf", "book", "a", "b", "c", "d", "e", "project", "location", "item_id"])
+            name = f"v{i}" if r.maybe(0.3) else r.pick(VAR_NAMES)
             while name in used:
                 name += "x"
             used.add(name)
@@ -237,6 +242,11 @@ def judge_helpers(ctx, cases, obs, payload_of):
                              {**pl, "path": expect_path, "observed": pr["value"]})
                     if not known:
                         break
+                rb = o.get("rebuilt")
+                if pr["value"] == want and (rb is None or rb.get("value") != expect_path):
+                    ctx.fail(("rebuild-raised" if rb is None or "raised" in rb else "rebuild-wrong") + suffix,
+                             f"{how}(**parse_{c['helper']}_path({expect_path!r})) gave {rb} (parse returned {pr['value']})", {**pl, "path": expect_path})
+                    break
                 bad = [(sx, q) for sx, q in zip(c.get("nonmatching", []), o["nonmatching"]) if q.get("value") != {}]
                 if bad:
                     ctx.fail("nonmatch-not-empty" + suffix, f"{how}: parse of non-matching {bad[0][0]!r} gave {bad[0][1]}", {**pl, "path": bad[0][0]})
@@ -270,6 +280,9 @@ def oracle_and_diff(ctx, cases, obs, model, source):
         m_parsed = None if mo["parsed_built"] is None else dict(mo["parsed_built"])
         if m_built != path or (m_parsed is not None and m_parsed != parsed):
             ctx.disagree("T3:c19.path-helpers", f"model built/parsed {m_built!r}/{m_parsed} vs impl {path!r}/{parsed}", payload)
+        rb = sc.get("rebuilt")
+        if "rebuilt" in mo and rb is not None and mo["rebuilt"] != rb.get("value"):     # build(**parse(path)): None = the call raises
+            ctx.disagree("T3:c19.rebuild-by-name", f"model {mo['rebuilt']!r} vs impl {rb} for {render(segs)!r} {c['values']}", payload)
         for sx, pr, mp in zip(c["nonmatching"], sc["nonmatching"], mo["parsed"]):
             if mp is not None and dict(mp) != pr.get("value"):
                 ctx.disagree("T3:c19.nonmatching", f"model {dict(mp)} vs impl {pr} on {sx!r}", {**payload, "path": sx})
@@ -318,7 +331,7 @@ def run_batch(ctx, batch, label):
             ctx.fail("import-failed", "emitted library failed: " + out[0]["child_error"][-300:], {"patterns": patterns})
             return
         if "op_error" in out[2]:
-            ctx.fail("harness:c19_helpers", str(out[2])[:300], {"patterns": patterns})
+            ctx.fail("import-failed", "emitted clients could not be imported/driven: " + str(out[2].get("op_error")) + " " + str(out[2].get("trace", ""))[-300:], {"patterns": patterns})
             return
         for cl, o in (("LibraryClient", out[0]), ("LibraryAsyncClient", out[1])):
             names = set(o.get("names", []))
@@ -359,7 +372,7 @@ EXCLUDED_POINTS = [
 ]
 
 
-def check_name_shapes(ctx, which=("same-short-name", "keyword-variable", "common-prefix")):
+def check_name_shapes(ctx, which=("same-short-name", "keyword-variable", "common-prefix", "hyphen-variable", "digit-leading-variable")):
     """two legal but unusual shapes of resource NAMES (not of patterns): both are open findings (known_findings.json)"""
     import subprocess, sys as _sys
     for shape in which:
@@ -370,6 +383,11 @@ def check_name_shapes(ctx, which=("same-short-name", "keyword-variable", "common
         elif shape == "common-prefix":
             # the helper of a resource whose short name snake-cases to `common_project` has the name of a common-resource helper
             specs = [("CommonProject", "lib.example.com/CommonProject", "foos/{foo}/bars/{bar}")]
+        elif shape == "hyphen-variable":
+            # PATH_ARG_RE accepts `-` inside a variable name; `key-ring` is not a Python identifier (nor a regex group name)
+            specs = [("Ring", "lib.example.com/Ring", "rings/{key-ring}/items/{item}")]
+        elif shape == "digit-leading-variable":
+            specs = [("Factor", "lib.example.com/Factor", "factors/{2fa}")]
         else:
             specs = [("Klass", "lib.example.com/Klass", "classes/{class}/imports/{import}")]
         for mname, rtype, pat in specs:
@@ -391,7 +409,11 @@ def check_name_shapes(ctx, which=("same-short-name", "keyword-variable", "common
             # the recorded failure: the `def` of THIS resource's builder with the pattern's keyword-named variables as parameters
             recorded = (shape == "keyword-variable" and client.name.endswith("services/library/client.py")
                         and re.match(r"def klass_path\(class: str,\s*import: str,?\s*\) -> str:", line))
-            key = "helper-syntax-error:keyword-variable" if recorded else f"name-shape:{shape}:syntax-error"
+            if shape == "hyphen-variable":
+                recorded = client.name.endswith("services/library/client.py") and re.match(r"def ring_path\(key-ring: str,\s*item: str,?\s*\) -> str:", line)
+            elif shape == "digit-leading-variable":
+                recorded = client.name.endswith("services/library/client.py") and re.match(r"def factor_path\(2fa: str,?\s*\) -> str:", line)
+            key = f"helper-syntax-error:{shape}" if recorded else f"name-shape:{shape}:syntax-error"
             ctx.fail(key, f"pattern {specs[0][2]!r}: emitted client does not parse: {line[:100]}", payload)
             continue
         root = genrun.materialise(res)
@@ -653,7 +675,7 @@ def run_vis(ctx, spec, label):
             ctx.fail("import-failed", "emitted library failed: " + out[0]["child_error"][-300:], payload)
             return
         if "op_error" in out[2]:
-            ctx.fail("harness:c19_helpers", str(out[2])[:300], payload)
+            ctx.fail("import-failed", "emitted clients could not be imported/driven: " + str(out[2].get("op_error")) + " " + str(out[2].get("trace", ""))[-300:], payload)
             return
         judge_helpers(ctx, want + commons, out[2], lambda x: {**payload, "resource": x.get("name", x["helper"])})
         for i, cl in enumerate(("LibraryClient", "LibraryAsyncClient")):
@@ -766,9 +788,19 @@ def sweep(ctx, r, npat, nval):
         except Exception as e:
             ctx.fail("raised", f"{type(e).__name__}: {e}", payload)
             continue
-        if render(segs) != "*" and parsed != dict(zip(args, vals)):
-            expect_path = "".join(x[1] if x[0] == "lit" else vals[args.index(x[1])] for x in segs)
-            ctx.fail(value_finding_key(segs, vals, path == expect_path, path, parsed, dict(zip(args, vals))) or "roundtrip",
+        own = [x[1] for x in segs if x[0] == "var"]
+        if args != own:            # the builder's keyword names are the pattern's variables, as written
+            ctx.fail("builder-argument-names", f"resource_path_args {args} != variables of {render(segs)!r}", payload)
+        elif render(segs) != "*" and parsed == dict(zip(own, vals)):
+            try:
+                rebuilt = fmt.format(**parsed)
+            except Exception as e:
+                rebuilt = f"raised {type(e).__name__}: {e}"
+            if rebuilt != path:
+                ctx.fail("rebuild-wrong", f"format(**parse({path!r})) = {rebuilt!r} for {render(segs)!r}", {**payload, "path": path})
+        if render(segs) != "*" and parsed != dict(zip(own, vals)):
+            expect_path = "".join(x[1] if x[0] == "lit" else vals[own.index(x[1])] for x in segs)
+            ctx.fail(value_finding_key(segs, vals, path == expect_path, path, parsed, dict(zip(own, vals))) or "roundtrip",
                      f"parse(build({vals})) = {parsed} for {render(segs)!r}", {**payload, "path": path})
         if mo.get("regex") is None and render(segs) != "*":
             ctx.unsupported += 1
